@@ -71,7 +71,7 @@
    The whole payload is written / copied in the step of its data[n].get() (under the G1 gate the
    memcpy that follows the gated get() runs before the thread reaches its next gate).
 
-   Threads.  Thread t acts for owner id 1 + 16 t + epoch; `CRec` recovers that owner (the thread
+   Threads.  Thread t acts for owner id 2 * 2^t * (2 epoch + 1); `CRec` recovers that owner (the thread
    plays "the owner died; somebody cleans up after it"), after which the thread has no handles and
    a fresh owner id.  A call with `fuse = Some k` is abandoned after k accesses (the owner died
    inside the call): a silent step back to Idle.  Each thread owns one ContainerState.
@@ -80,7 +80,9 @@
    lists every (generation, payload) that an add made visible in slot i; `oplog` has one entry
    (slot, generation the slot has at least reached, value of the change counter after the
    operation's own increment, clock at completion) per completed add (its odd generation) and
-   per slot emptied by a completed remove / recover (removed generation + 1); `pend` of a thread
+   per slot emptied by a completed remove / recover (removed generation + 1); `settled i`: the owner of
+   slot i has made sure its generation is even (or has completed its add) and nobody has released the
+   index since; `pend` of a thread
    collects the entries of its running operation; `ustart`, `ulast`, `uprev` of a thread: clock
    at the start of its latest update_state, what it returned, the snapshot generations before it. *)
 From V Require Import model.Base model.Conc model.Events.
@@ -165,13 +167,15 @@ Record cgst := {
   (* ghost *)
   clock : N;
   published : N -> list (N * N);
-  oplog : list (N * N * N * N)
+  oplog : list (N * N * N * N);
+  settled : N -> bool
 }.
 
 Definition B_DIST : N := 0. Definition B_CELL : N := 1. Definition B_IGEN : N := 2.
 Definition B_GEN : N := 3. Definition B_DATA : N := 4. Definition B_CHANGE : N := 5.
 
-Definition owner_of (t : nat) (e : N) : N := 1 + 16 * N.of_nat t + e.
+(* injective in (t, e), even (so never EMPTY) and non-zero *)
+Definition owner_of (t : nat) (e : N) : N := 2 * (2 ^ N.of_nat t * (2 * e + 1)).
 Definition odd (x : N) : bool := N.eqb (N.modulo x 2) 1.
 Definition digit (d : N) : N := if andb (N.leb 1 d) (N.leb d 30) then d else 31.
 
@@ -219,28 +223,32 @@ Definition done (l : clst) : clst := set_pend (set_fuse (set_pc l Idle) None) []
 (* ---- global state updates ---- *)
 Definition set_cells (g : cgst) (c : N -> N) : cgst :=
   {| cap := cap g; dist0 := dist0 g; dist1 := dist1 g; dist2 := dist2 g; cells := c; igen := igen g;
-     gens := gens g; datas := datas g; change := change g; clock := clock g; published := published g; oplog := oplog g |}.
+     gens := gens g; datas := datas g; change := change g; clock := clock g; published := published g; oplog := oplog g; settled := settled g |}.
 Definition set_igen (g : cgst) (x : N) : cgst :=
   {| cap := cap g; dist0 := dist0 g; dist1 := dist1 g; dist2 := dist2 g; cells := cells g; igen := x;
-     gens := gens g; datas := datas g; change := change g; clock := clock g; published := published g; oplog := oplog g |}.
+     gens := gens g; datas := datas g; change := change g; clock := clock g; published := published g; oplog := oplog g; settled := settled g |}.
 Definition set_gens (g : cgst) (x : N -> N) : cgst :=
   {| cap := cap g; dist0 := dist0 g; dist1 := dist1 g; dist2 := dist2 g; cells := cells g; igen := igen g;
-     gens := x; datas := datas g; change := change g; clock := clock g; published := published g; oplog := oplog g |}.
+     gens := x; datas := datas g; change := change g; clock := clock g; published := published g; oplog := oplog g; settled := settled g |}.
 Definition set_datas (g : cgst) (x : N -> N) : cgst :=
   {| cap := cap g; dist0 := dist0 g; dist1 := dist1 g; dist2 := dist2 g; cells := cells g; igen := igen g;
-     gens := gens g; datas := x; change := change g; clock := clock g; published := published g; oplog := oplog g |}.
+     gens := gens g; datas := x; change := change g; clock := clock g; published := published g; oplog := oplog g; settled := settled g |}.
 Definition set_published (g : cgst) (x : N -> list (N * N)) : cgst :=
   {| cap := cap g; dist0 := dist0 g; dist1 := dist1 g; dist2 := dist2 g; cells := cells g; igen := igen g;
-     gens := gens g; datas := datas g; change := change g; clock := clock g; published := x; oplog := oplog g |}.
+     gens := gens g; datas := datas g; change := change g; clock := clock g; published := x; oplog := oplog g; settled := settled g |}.
+Definition set_settled (g : cgst) (i : N) (b : bool) : cgst :=
+  {| cap := cap g; dist0 := dist0 g; dist1 := dist1 g; dist2 := dist2 g; cells := cells g; igen := igen g;
+     gens := gens g; datas := datas g; change := change g; clock := clock g; published := published g; oplog := oplog g;
+     settled := fupd (settled g) i b |}.
 Definition tick (g : cgst) : cgst :=
   {| cap := cap g; dist0 := dist0 g; dist1 := dist1 g; dist2 := dist2 g; cells := cells g; igen := igen g;
-     gens := gens g; datas := datas g; change := change g; clock := clock g + 1; published := published g; oplog := oplog g |}.
+     gens := gens g; datas := datas g; change := change g; clock := clock g + 1; published := published g; oplog := oplog g; settled := settled g |}.
 (* the final change.fetch_add of a writer operation: completion; its pending entries are logged
    with the new counter value and the completion time *)
 Definition complete (g : cgst) (pd : list (N * N)) : cgst :=
   {| cap := cap g; dist0 := dist0 g; dist1 := dist1 g; dist2 := dist2 g; cells := cells g; igen := igen g;
      gens := gens g; datas := datas g; change := change g + 1; clock := clock g + 1; published := published g;
-     oplog := map (fun e => (fst e, snd e, change g + 1, clock g)) pd ++ oplog g |}.
+     oplog := map (fun e => (fst e, snd e, change g + 1, clock g)) pd ++ oplog g; settled := settled g |}.
 
 Definition rc (tag payload : N) : N := tag + 8 * payload.
 Definition ret_add (l : clst) (res : N) : ev := ERet (rc 1 (res + 128 * arg l)).
@@ -352,11 +360,11 @@ Definition step_acc (t : nat) (g : cgst) (l : clst) : option (cgst * clst * list
   | AddLoadGen v n =>
     let e := ld 20 B_GEN n Acquire (gens g n) in
     if odd (gens g n) then Some (g, set_pc l (AddCasGen v n (gens g n)), [e])
-    else Some (g, set_pc l (AddDist1 v n), [e])
+    else Some (set_settled g n true, set_pc l (AddDist1 v n), [e])
   | AddCasGen v n x =>
     let e := cas_ev 21 B_GEN n AcqRel Acquire (gens g n) x (x + 1) in
-    if N.eqb (gens g n) x then Some (set_gens g (fupd (gens g) n (x + 1)), set_pc l (AddDist1 v n), [e])
-    else Some (g, set_pc l (AddDist1 v n), [e])
+    if N.eqb (gens g n) x then Some (set_settled (set_gens g (fupd (gens g) n (x + 1))) n true, set_pc l (AddDist1 v n), [e])
+    else Some (set_settled g n true, set_pc l (AddDist1 v n), [e])
   | AddDist1 v n => Some (g, set_pc l (AddWrite v n), [dist_ev g 1])
   | AddWrite v n => Some (set_datas g (fupd (datas g) n v), set_pc l (AddIncGen v n), [cell_ev n])
   | AddIncGen v n =>
@@ -375,7 +383,7 @@ Definition step_acc (t : nat) (g : cgst) (l : clst) : option (cgst * clst * list
   | RemCasCell i gn =>
     let e := cas_ev 15 B_CELL i Relaxed Relaxed (cells g i) me EMPTY in
     if N.eqb (cells g i) me
-    then Some (set_cells g (fupd (cells g) i EMPTY), set_pc l (IncLoad (KRem i gn)), [e])
+    then Some (set_settled (set_cells g (fupd (cells g) i EMPTY)) i false, set_pc l (IncLoad (KRem i gn)), [e])
     else Some (tick g, done l, [e; ret_rem l 2])
   | RemCasGen i gn =>
     let e := cas_ev 31 B_GEN i Relaxed Relaxed (gens g i) gn (gn + 1) in
@@ -411,7 +419,7 @@ Definition step_acc (t : nat) (g : cgst) (l : clst) : option (cgst * clst * list
   | RecCasCell n v acc p =>
     let e := cas_ev 18 B_CELL n Relaxed Relaxed (cells g n) me EMPTY in
     if N.eqb (cells g n) me
-    then Some (set_cells g (fupd (cells g) n EMPTY), set_pc l (RecSDist0 n v acc p), [e])
+    then Some (set_settled (set_cells g (fupd (cells g) n EMPTY)) n false, set_pc l (RecSDist0 n v acc p), [e])
     else Some (g, set_pc l (rec_next g (n + 1) acc p), [e])
   | RecSDist0 n v acc p => Some (g, set_pc l (RecCasGen n v acc p), [dist_ev g 0])
   | RecCasGen n v acc p =>
@@ -467,7 +475,7 @@ Definition step (t : nat) (g : cgst) (l : clst) : option (cgst * clst * list ev)
 
 Definition g_init (c d0 d1 d2 : N) : cgst :=
   {| cap := c; dist0 := d0; dist1 := d1; dist2 := d2; cells := fun _ => EMPTY; igen := 0;
-     gens := fun _ => 0; datas := fun _ => 0; change := 0; clock := 0; published := fun _ => []; oplog := [] |}.
+     gens := fun _ => 0; datas := fun _ => 0; change := 0; clock := 0; published := fun _ => []; oplog := []; settled := fun _ => false |}.
 Definition l_init (p : list cop) : clst :=
   {| prog := p; pc := Idle; fuse := None; arg := 0; epoch := 0; handles := []; rchange := 0; rgen := fun _ => 0; rdata := fun _ => 0;
      pend := []; ustart := 0; ulast := false; uprev := fun _ => 0 |}.
